@@ -187,6 +187,42 @@ def run(ck: Check) -> None:
             f.write(raw)
         ck.count("raw-utf8-file")
         check_signed_file(fn, doc, "raw-utf8:pad%d:%d-bytes" % (pad, len(raw)))
+    # two channels' indexes of the same file name (linux-64/repodata.json, noarch/repodata.json) signed at the same time by two threads, under sampled
+    # non-nested schedules (sched.staggered): each file ends as the file signing it alone gives — nothing the two runs use is shared between them
+    from .. import sched
+    repo_pkg = os.path.join(os.path.realpath(os.environ.get("CCT_REPO", "/repo")), "conda_content_trust") + os.sep
+    dx, dy = os.path.join(d_, "linux-64"), os.path.join(d_, "noarch")
+    os.makedirs(dx, exist_ok=True); os.makedirs(dy, exist_ok=True)
+    fx, fy = os.path.join(dx, "repodata.json"), os.path.join(dy, "repodata.json")
+    docx = {"info": {"subdir": "linux-64"}, "packages": {"a-1.0-0.tar.bz2": {"name": "a", "subdir": "linux-64"}}, "packages.conda": {"b.conda": {"name": "b"}}}
+    docy = {"info": {"subdir": "noarch"}, "packages": {"n-2.0-0.tar.bz2": {"name": "n", "subdir": "noarch"}, "m.tar.bz2": {"name": "m"}}}
+    kx, ky = gen.key(4), gen.key(5)
+    def put2():
+        open(fx, "wb").write(gen.oracle_bytes(docx)); open(fy, "wb").write(gen.oracle_bytes(docy))
+    put2()
+    with impl.quiet_stdout():
+        _, nx = sched.count_events(lambda: impl.signing.sign_all_in_repodata(fx, kx.seed.hex()), repo_pkg)
+        _, ny = sched.count_events(lambda: impl.signing.sign_all_in_repodata(fy, ky.seed.hex()), repo_pkg)
+    wantx, wanty = open(fx, "rb").read(), open(fy, "rb").read()
+    nsched = 0
+    with impl.quiet_stdout():
+        for k1 in sorted({max(1, int(nx * f)) for f in (0.3, 0.6, 0.8, 0.9, 0.95, 0.98, 1.0)}):
+            for k2 in sorted({max(1, int(ny * f)) for f in (0.5, 0.8, 0.9, 0.95, 0.98, 1.0)}):
+                put2()
+                ra, rb, _, _ = sched.staggered(lambda: impl.signing.sign_all_in_repodata(fx, kx.seed.hex()), lambda: impl.signing.sign_all_in_repodata(fy, ky.seed.hex()), k1, k2, repo_pkg)
+                nsched += 1
+                ck.evaluations += 1
+                ck.oracle_checks += 1
+                gx, gy = open(fx, "rb").read() if os.path.exists(fx) else b"<missing>", open(fy, "rb").read() if os.path.exists(fy) else b"<missing>"
+                if ra is not None or rb is not None or gx != wantx or gy != wanty:
+                    ck.violation("two repodata files of the same name in different directories, signed concurrently: a run failed or a file does not hold its own signed document",
+                                 {"first_run": str(ra)[:150], "second_run": str(rb)[:150], "first_file_is_its_own_result": gx == wantx, "second_file_is_its_own_result": gy == wanty,
+                                  "first_file_holds_the_other_document": gx == wanty, "first_stopped_after_steps": k1, "second_stopped_after_steps": k2}, "signrepo-concurrent-same-name")
+                    break
+            else:
+                continue
+            break
+    ck.count("concurrent-signing-schedules", nsched)
     # malformed documents / keys: same outcome class as the model, and an argument error where the structure is not a repodata document
     bad = [Case("signrepofile", [x, gen.key(1).seed.hex()], tag="bad-doc") for x in [{}, {"signatures": {}}, [], ["packages"], "packages", 5, None, {"packages.conda": {}}]]
     bad += [Case("signrepofile", [{"packages": {}}, x], tag="bad-key") for x in ["", "ab", "AB" * 32, "ab" * 31, " " + "ab" * 32, None, 5, gen.key(1).seed]]
